@@ -18,11 +18,14 @@ import (
 	"net"
 	"os"
 	"path/filepath"
+	"reflect"
 	"regexp"
+	"sort"
 	"strings"
 	"sync"
 	"testing"
 	"time"
+	"unsafe"
 
 	"github.com/BurntSushi/toml"
 	"github.com/refraction-networking/conjure/internal/vlib"
@@ -93,6 +96,7 @@ type c19World struct {
 	subnetsOK  string // path of a valid phantom subnets file
 	nextSecret uint64
 	ifaceNets  int
+	ifaces     []*net.IPNet // the harness's own reading of net.Interfaces()
 }
 
 func (w *c19World) write(name, content string) string {
@@ -246,6 +250,17 @@ func (w *c19World) loadCase(out *vlib.Out, content string) c19Load {
 			fail("C19:allowlist-not-enforced", "an allowlist is configured but 203.0.113.250 outside it is permitted")
 		}
 	}
+	if raw.CovertBlocklistPublicAddrs && !hasAllow {
+		// covert_blocklist_public_addrs: every address of a local interface is refused (the harness's own
+		// reading of net.Interfaces, taken at start)
+		for _, n := range w.ifaces {
+			out.Checked()
+			if !rc.isBlocklistedCovertAddr(n.IP) {
+				fail("C19:public-addrs-not-enforced", fmt.Sprintf("covert_blocklist_public_addrs is set but the local interface address %s is permitted as covert address", n.IP))
+			}
+		}
+		out.Count("load:public-addrs-checked")
+	}
 	for _, e := range raw.CovertBlocklistDomains {
 		if _, err := regexp.Compile(e); err != nil {
 			fail("C19:unparsable-entry-accepted", fmt.Sprintf("covert_blocklist_domains entry %q does not compile but the configuration was accepted", e))
@@ -346,52 +361,55 @@ type c19GeoMarker struct {
 	id int
 }
 
-func c19ValidConf(k int, allow bool, geoBad bool) string {
+// c19Desc: what a configuration file says about the address policies (the harness's own description of
+// the file it writes; expectations are computed from it, never from the code's parsed lists)
+type c19Desc struct {
+	block, domains, phantom, allow []string
+	public                         bool
+	extra                          string // further lines of the file
+}
+
+func c19TomlList(l []string) string {
+	var q []string
+	for _, e := range l {
+		q = append(q, fmt.Sprintf("%q", e))
+	}
+	return "[" + strings.Join(q, ", ") + "]"
+}
+
+func (d c19Desc) toml() string {
 	var sb strings.Builder
-	fmt.Fprintf(&sb, "enable_v4 = true\ncovert_blocklist_subnets = [\"127.0.0.0/8\", \"198.18.%d.0/24\"]\n", k)
-	fmt.Fprintf(&sb, "covert_blocklist_domains = [\"localhost\", \"^marker-%d\\\\.test$\"]\n", k)
-	fmt.Fprintf(&sb, "phantom_blocklist = [\"203.0.113.%d/32\"]\n", k)
-	if allow {
-		sb.WriteString("covert_allowlist_subnets = [\"198.51.100.0/24\"]\n")
+	sb.WriteString("enable_v4 = true\n")
+	if d.block != nil {
+		fmt.Fprintf(&sb, "covert_blocklist_subnets = %s\n", c19TomlList(d.block))
 	}
-	if geoBad {
-		sb.WriteString("geoip_cc_db_path = \"/nonexistent/cc.mmdb\"\n")
+	if d.domains != nil {
+		fmt.Fprintf(&sb, "covert_blocklist_domains = %s\n", c19TomlList(d.domains))
 	}
+	if d.phantom != nil {
+		fmt.Fprintf(&sb, "phantom_blocklist = %s\n", c19TomlList(d.phantom))
+	}
+	if d.allow != nil {
+		fmt.Fprintf(&sb, "covert_allowlist_subnets = %s\n", c19TomlList(d.allow))
+	}
+	if d.public {
+		sb.WriteString("covert_blocklist_public_addrs = true\n")
+	}
+	sb.WriteString(d.extra)
 	return sb.String()
+}
+
+// the valid configuration of reload k: every list carries a marker of k
+func c19ValidDesc(k int) c19Desc {
+	return c19Desc{
+		block:   []string{"127.0.0.0/8", fmt.Sprintf("198.18.%d.0/24", k)},
+		domains: []string{"localhost", fmt.Sprintf("^marker-%d\\.test$", k)},
+		phantom: []string{fmt.Sprintf("203.0.113.%d/32", k)},
+	}
 }
 
 func c19Subnets(k int) string {
 	return fmt.Sprintf("[Networks]\n  [Networks.%d]\n    Generation = %d\n    [[Networks.%d.WeightedSubnets]]\n      Weight = 1\n      Subnets = [\"192.122.190.0/24\", \"2001:48a8:687f:1::/64\"]\n", 1000+k, 1000+k, 1000+k)
-}
-
-// versions read back from the running manager (white-box): which reload set each part
-func c19PolicyVersion(rm *RegistrationManager, max int) (v int, torn bool) {
-	find := func(f func(k int) bool) int {
-		got := -1
-		for k := 0; k <= max; k++ {
-			if f(k) {
-				if got >= 0 {
-					return -2
-				}
-				got = k
-			}
-		}
-		return got
-	}
-	b := find(func(k int) bool {
-		for _, n := range rm.covertBlocklistSubnets {
-			if n.String() == fmt.Sprintf("198.18.%d.0/24", k) {
-				return true
-			}
-		}
-		return false
-	})
-	d := find(func(k int) bool { return rm.isBlocklistedCovertDomain(fmt.Sprintf("marker-%d.test", k)) })
-	p := find(func(k int) bool { return rm.IsBlocklistedPhantom(net.ParseIP(fmt.Sprintf("203.0.113.%d", k))) })
-	if b == -1 && d == -1 && p == -1 && len(rm.covertBlocklistSubnets)+len(rm.covertBlocklistDomains)+len(rm.phantomBlocklist)+len(rm.covertAllowlistSubnets) == 0 && !rm.enableCovertAllowlist {
-		return -1, false // the policies of a configuration that sets no list at all
-	}
-	return b, !(b == d && d == p && b >= 0)
 }
 
 func c19SelectorVersion(rm *RegistrationManager, max int) int {
@@ -407,12 +425,220 @@ func c19SelectorVersion(rm *RegistrationManager, max int) int {
 	return got
 }
 
+// the probe set of one reload sequence: what "the policies in force" are observed on
+type c19Probes struct {
+	addrs, hosts, phantoms []string
+}
+
+func (w *c19World) probes(n int) c19Probes {
+	p := c19Probes{addrs: []string{"127.0.0.1", "198.51.100.1", "192.0.2.77", "8.8.8.8", "2001:db8::1", "10.0.0.99"},
+		hosts: []string{"localhost", "example.com"}, phantoms: []string{"192.0.2.9"}}
+	for k := 0; k <= n; k++ {
+		p.addrs = append(p.addrs, fmt.Sprintf("198.18.%d.1", k))
+		p.hosts = append(p.hosts, fmt.Sprintf("marker-%d.test", k))
+		p.phantoms = append(p.phantoms, fmt.Sprintf("203.0.113.%d", k))
+	}
+	seen := map[string]bool{}
+	for _, a := range p.addrs {
+		seen[a] = true
+	}
+	for _, n := range w.ifaces { // for covert_blocklist_public_addrs
+		if a := n.IP.String(); !seen[a] {
+			seen[a] = true
+			p.addrs = append(p.addrs, a)
+		}
+	}
+	return p
+}
+
+// decisions of the running manager on the probe set: one 0/1 per probe, "refused?"
+func (p c19Probes) observe(rm *RegistrationManager) string {
+	var a, h, ph strings.Builder
+	for _, x := range p.addrs {
+		a.WriteString(vlib.B(rm.isBlocklistedCovertAddr(net.ParseIP(x))))
+	}
+	for _, x := range p.hosts {
+		h.WriteString(vlib.B(rm.isBlocklistedCovertDomain(x)))
+	}
+	for _, x := range p.phantoms {
+		ph.WriteString(vlib.B(rm.IsBlocklistedPhantom(net.ParseIP(x))))
+	}
+	return a.String() + ":" + h.String() + ":" + ph.String()
+}
+
+// expect: the decisions the configuration described by d calls for (property reading: a configured
+// allowlist decides alone; otherwise the blocklist, plus the local interfaces when asked for)
+func (p c19Probes) expect(d c19Desc, ifaces []*net.IPNet) string {
+	nets := func(l []string) []*net.IPNet {
+		var r []*net.IPNet
+		for _, e := range l {
+			if _, n, err := net.ParseCIDR(strings.TrimSpace(e)); err == nil {
+				r = append(r, n)
+			}
+		}
+		return r
+	}
+	in := func(l []*net.IPNet, ip net.IP) bool {
+		for _, n := range l {
+			if n.Contains(ip) {
+				return true
+			}
+		}
+		return false
+	}
+	block, allow, phantom := nets(d.block), nets(d.allow), nets(d.phantom)
+	if d.public {
+		block = append(block, ifaces...)
+	}
+	var a, h, ph strings.Builder
+	for _, x := range p.addrs {
+		ip := net.ParseIP(x)
+		if len(allow) > 0 {
+			a.WriteString(vlib.B(!in(allow, ip)))
+		} else {
+			a.WriteString(vlib.B(in(block, ip)))
+		}
+	}
+	for _, x := range p.hosts {
+		m := false
+		for _, e := range d.domains {
+			if re, err := regexp.Compile(e); err == nil && re.MatchString(x) {
+				m = true
+			}
+		}
+		h.WriteString(vlib.B(m))
+	}
+	for _, x := range p.phantoms {
+		ph.WriteString(vlib.B(in(phantom, net.ParseIP(x))))
+	}
+	return a.String() + ":" + h.String() + ":" + ph.String()
+}
+
+// tokens for the model: per configured entry what the real parser and the real Contains / MatchString
+// answer on the probe set (`e`, or `o` + indices of the probes the entry covers)
+func c19NetTok(n *net.IPNet, probes []string) string {
+	var idx []string
+	for i, x := range probes {
+		if n.Contains(net.ParseIP(x)) {
+			idx = append(idx, fmt.Sprint(i))
+		}
+	}
+	return "o" + strings.Join(idx, ".")
+}
+
+func c19ListToks(entries []string, tok func(string) string) string {
+	if len(entries) == 0 {
+		return "-"
+	}
+	var t []string
+	for _, e := range entries {
+		t = append(t, tok(e))
+	}
+	return strings.Join(t, "/")
+}
+
+// confFields decodes the file a (re)load will find, as the model's oracle input:
+// `<decode>,<block>,<domains>,<phantom>,<allow>,<public>`
+func (p c19Probes) confFields(path string) string {
+	var dec Config
+	_, derr := toml.DecodeFile(path, &dec)
+	switch {
+	case derr != nil:
+		return "E,-,-,-,-,0"
+	case dec.RegConfig == nil:
+		return "N,-,-,-,-,0"
+	}
+	raw := dec.RegConfig
+	cidr := func(probes []string) func(string) string {
+		return func(e string) string {
+			_, n, err := net.ParseCIDR(strings.TrimSpace(e))
+			if err != nil {
+				return "e"
+			}
+			return c19NetTok(n, probes)
+		}
+	}
+	pat := func(e string) string {
+		re, err := regexp.Compile(e)
+		if err != nil {
+			return "e"
+		}
+		var idx []string
+		for i, x := range p.hosts {
+			if re.MatchString(x) {
+				idx = append(idx, fmt.Sprint(i))
+			}
+		}
+		return "o" + strings.Join(idx, ".")
+	}
+	return strings.Join([]string{"R", c19ListToks(raw.CovertBlocklistSubnets, cidr(p.addrs)), c19ListToks(raw.CovertBlocklistDomains, pat),
+		c19ListToks(raw.PhantomBlocklist, cidr(p.phantoms)), c19ListToks(raw.CovertAllowlistSubnets, cidr(p.addrs)), vlib.B(raw.CovertBlocklistPublicAddrs)}, ",")
+}
+
+// c19HeldLocks: every sync.Mutex / sync.RWMutex reachable from the manager (its own fields, embedded
+// structures, structures of this package it points to) must be free when no call is in progress.
+func c19HeldLocks(root any) []string {
+	var held []string
+	seen := map[uintptr]bool{}
+	pkg := reflect.TypeOf(RegistrationManager{}).PkgPath()
+	var walk func(v reflect.Value, path string, depth int)
+	walk = func(v reflect.Value, path string, depth int) {
+		if depth > 3 || !v.IsValid() {
+			return
+		}
+		switch v.Kind() {
+		case reflect.Ptr:
+			if v.IsNil() || v.Elem().Kind() != reflect.Struct || seen[v.Pointer()] {
+				return
+			}
+			seen[v.Pointer()] = true
+			walk(v.Elem(), path, depth)
+		case reflect.Struct:
+			if !v.CanAddr() {
+				return
+			}
+			switch v.Type() {
+			case reflect.TypeOf(sync.RWMutex{}):
+				m := (*sync.RWMutex)(unsafe.Pointer(v.UnsafeAddr()))
+				if !m.TryLock() {
+					held = append(held, path)
+				} else {
+					m.Unlock()
+				}
+				return
+			case reflect.TypeOf(sync.Mutex{}):
+				m := (*sync.Mutex)(unsafe.Pointer(v.UnsafeAddr()))
+				if !m.TryLock() {
+					held = append(held, path)
+				} else {
+					m.Unlock()
+				}
+				return
+			}
+			if v.Type().PkgPath() != pkg {
+				return
+			}
+			for i := 0; i < v.NumField(); i++ {
+				f := v.Type().Field(i)
+				walk(v.Field(i), path+"."+f.Name, depth+1)
+			}
+		}
+	}
+	walk(reflect.ValueOf(root), "rm", 0)
+	sort.Strings(held)
+	return held
+}
+
 type c19Event struct {
-	conf    string // kind of configuration file: valid, valid-allow, valid-geobad, bad-subnet, bad-space-only, bad-pattern, bad-toml, unreadable, directory, empty, zmq-only
+	conf    string // kind of configuration file, see c19ConfKinds
 	subnets string // valid, bad-toml, unreadable, bad-generation
 }
 
-var c19ConfKinds = []string{"valid", "valid-allow", "valid-geobad", "bad-subnet", "bad-allow", "bad-pattern", "bad-toml", "unreadable", "directory", "empty", "zmq-only", "bad-type"}
+var c19ConfKinds = []string{"valid", "valid-allow", "valid-geobad", "valid-allow2", "valid-public", "toggle-allow", "valid-geogarbage",
+	"bad-subnet", "bad-allow", "bad-pattern", "bad-toml", "unreadable", "directory", "empty", "zmq-only", "bad-type", "bad-bare-ip"}
+
+const c19ValidKinds = 7 // the first entries of c19ConfKinds load
+
 var c19SubnetKinds = []string{"valid", "valid", "bad-toml", "unreadable", "bad-generation"}
 
 func (w *c19World) reloadCase(out *vlib.Out, evs []c19Event) {
@@ -422,10 +648,14 @@ func (w *c19World) reloadCase(out *vlib.Out, evs []c19Event) {
 	}
 	replay := "c19reload|" + strings.Join(desc, ",")
 	fail := func(sig, what string) { out.OracleFail(sig, what+" — reload sequence "+strings.Join(desc, ","), replay) }
+	pr := w.probes(len(evs))
 
 	// start-up with configuration 0 and subnets file 0
 	os.Setenv("PHANTOM_SUBNET_LOCATION", w.write("subnets.toml", c19Subnets(0)))
-	res := w.parseConfig(w.write("conf.toml", c19ValidConf(0, false, false)))
+	inForce := c19ValidDesc(0) // the harness's own account of the policies that must be in force
+	startPath := w.write("conf.toml", inForce.toml())
+	startFields := pr.confFields(startPath)
+	res := w.parseConfig(startPath)
 	if res.kind != "ok" {
 		fail("C19:valid-config-rejected", "the start-up configuration of the reload harness was not accepted: "+res.msg)
 		return
@@ -438,46 +668,61 @@ func (w *c19World) reloadCase(out *vlib.Out, evs []c19Event) {
 	rm.Logger = w.logger
 	var mline, outs []string
 	dead := false
-	sv, pv, gv := 0, 0, 0
-	probe := func() string {
-		// decisions of the address policies on a fixed probe set (what "stays fully in force" means)
-		var sb strings.Builder
-		for _, a := range []string{"127.0.0.1", "198.18.0.1", "198.18.1.1", "198.18.2.1", "198.18.3.1", "198.51.100.1", "8.8.8.8", "2001:db8::1"} {
-			sb.WriteString(vlib.B(rm.isBlocklistedCovertAddr(net.ParseIP(a))))
-		}
-		for k := 0; k <= len(evs); k++ {
-			sb.WriteString(vlib.B(rm.isBlocklistedCovertDomain(fmt.Sprintf("marker-%d.test", k))))
-			sb.WriteString(vlib.B(rm.IsBlocklistedPhantom(net.ParseIP(fmt.Sprintf("203.0.113.%d", k)))))
-		}
-		sb.WriteString(vlib.B(rm.isBlocklistedCovertDomain("localhost")))
-		return sb.String()
+	sv, gv := 0, 0
+	start := pr.observe(rm)
+	out.Checked()
+	if want := pr.expect(inForce, w.ifaces); start != want {
+		fail("C19:entry-not-enforced", fmt.Sprintf("start-up: decisions %s on the probe set, the configuration calls for %s", start, want))
 	}
+	outs = append(outs, "ok:"+start)
+	garbage := w.write("garbage.mmdb", "this is not a MaxMind database\n")
 	for i, e := range evs {
 		k := i + 1
 		if dead {
-			mline = append(mline, "e,e,e")
+			mline = append(mline, "E,-,-,-,-,0,e,e")
 			outs = append(outs, "panic")
 			continue
 		}
 		// the files this reload finds
 		confPath := filepath.Join(w.dir, "conf.toml")
+		nd := c19ValidDesc(k) // what the file of this reload describes
 		switch e.conf {
 		case "valid":
-			w.write("conf.toml", c19ValidConf(k, false, false))
 		case "valid-allow":
-			w.write("conf.toml", c19ValidConf(k, true, false))
+			nd.allow = []string{"198.51.100.0/24"}
+		case "valid-allow2":
+			nd.allow = []string{"192.0.2.0/24", "2001:db8::/32"}
+		case "valid-public":
+			nd.public = true
 		case "valid-geobad":
-			w.write("conf.toml", c19ValidConf(k, false, true))
+			nd.extra = "geoip_cc_db_path = \"/nonexistent/cc.mmdb\"\n"
+		case "valid-geogarbage":
+			nd.extra = fmt.Sprintf("geoip_cc_db_path = %q\ngeoip_asn_db_path = %q\n", garbage, garbage)
+		case "toggle-allow":
+			// the configuration in force with nothing changed but the allowlist
+			nd = inForce
+			nd.extra = ""
+			if len(nd.allow) > 0 {
+				nd.allow = nil
+			} else {
+				nd.allow = []string{"198.51.100.0/24"}
+			}
 		case "bad-subnet":
-			w.write("conf.toml", strings.Replace(c19ValidConf(k, false, false), "\"127.0.0.0/8\"", "\"127.0.0.0/8\", \"10.0.0.0/99\"", 1))
+			nd.block = append(nd.block, "10.0.0.0/99")
+		case "bad-bare-ip":
+			nd.block = append(nd.block, "10.0.0.1")
 		case "bad-allow":
-			w.write("conf.toml", c19ValidConf(k, false, false)+"covert_allowlist_subnets = [\"198.51.100.0/24\", \"not a subnet\"]\n")
+			nd.allow = []string{"198.51.100.0/24", "not a subnet"}
 		case "bad-pattern":
-			w.write("conf.toml", strings.Replace(c19ValidConf(k, false, false), "\"localhost\"", "\"localhost\", \"(unclosed\"", 1))
+			nd.domains = append(nd.domains, "(unclosed")
 		case "bad-toml":
-			w.write("conf.toml", c19ValidConf(k, false, false)+"this is = = not toml\n")
+			nd.extra = "this is = = not toml\n"
 		case "bad-type":
-			w.write("conf.toml", c19ValidConf(k, false, false)+"ingest_worker_count = \"many\"\n")
+			nd.extra = "ingest_worker_count = \"many\"\n"
+		case "empty", "zmq-only":
+			nd = c19Desc{}
+		}
+		switch e.conf {
 		case "unreadable":
 			confPath = filepath.Join(w.dir, "does-not-exist.toml")
 		case "directory":
@@ -486,6 +731,8 @@ func (w *c19World) reloadCase(out *vlib.Out, evs []c19Event) {
 			w.write("conf.toml", "")
 		case "zmq-only":
 			w.write("conf.toml", "socket_name = \"zmq-proxy\"\nlog_level = \"error\"\n")
+		default:
+			w.write("conf.toml", nd.toml())
 		}
 		subPath := filepath.Join(w.dir, "subnets.toml")
 		switch e.subnets {
@@ -502,7 +749,6 @@ func (w *c19World) reloadCase(out *vlib.Out, evs []c19Event) {
 
 		// what each loading step answers (oracle inputs of the model)
 		pre := w.parseConfig(confPath)
-		cf := map[string]string{"ok": "o", "err": "e", "panic": "p"}[pre.kind]
 		_, serr := phantoms.NewPhantomIPSelector()
 		sf := "o"
 		if serr != nil {
@@ -514,10 +760,14 @@ func (w *c19World) reloadCase(out *vlib.Out, evs []c19Event) {
 				gf = "m"
 			}
 		}
-		mline = append(mline, cf+","+sf+","+gf)
+		cfields := pr.confFields(confPath)
+		if pre.kind == "panic" {
+			cfields = "R,p,-,-,-,0" // the model's way of saying: the parser panicked
+		}
+		mline = append(mline, cfields+","+sf+","+gf)
 
 		// the SIGHUP branch of main, on the real functions
-		before := probe()
+		before := pr.observe(rm)
 		selBefore := rm.PhantomSelector
 		marker := &c19GeoMarker{id: k}
 		rm.GeoIP = marker
@@ -549,31 +799,46 @@ func (w *c19World) reloadCase(out *vlib.Out, evs []c19Event) {
 			outs = append(outs, "panic")
 			continue
 		}
+		// no lock may stay held once the reload has returned (the readers would block for ever)
+		out.Checked()
+		if held := c19HeldLocks(rm); len(held) > 0 {
+			fail("C19:reload-left-lock-held", fmt.Sprintf("after reload %d (%s/%s) these locks are still held: %s", k, e.conf, e.subnets, strings.Join(held, ", ")))
+			dead = true
+			outs = append(outs, "panic")
+			continue
+		}
 		// observed versions
-		if rm.GeoIP != Database(marker) {
+		if rm.GeoIPDatabase() != Database(marker) {
 			gv = k
 		}
 		nsv := c19SelectorVersion(rm, len(evs))
-		npv, torn := c19PolicyVersion(rm, len(evs))
-		after := probe()
-		// ---- property oracle: each part is new only if its new version loaded, otherwise untouched
-		if torn {
-			fail("C19:reload-part-torn", fmt.Sprintf("after reload %d the address policies mix versions (blocklist marker %d)", k, npv))
+		if rm.Selector() != rm.PhantomSelector {
+			fail("C19:reload-part-torn", fmt.Sprintf("after reload %d Selector() does not return the selector in force", k))
 		}
+		after := pr.observe(rm)
+		// ---- property oracle: each part is new only if its new version loaded, otherwise untouched
 		if !reloaded {
 			if after != before || rm.PhantomSelector != selBefore || rm.GeoIP != Database(marker) {
-				fail("C19:failed-reload-changed-state", fmt.Sprintf("reload %d failed to load its configuration but the running state changed", k))
+				fail("C19:failed-reload-changed-state", fmt.Sprintf("reload %d failed to load its configuration but the running state changed (decisions %s -> %s)", k, before, after))
 			}
 		} else {
-			if e.conf == "empty" || e.conf == "zmq-only" {
-				// a file without any list: the policies in force must be the empty ones
-				if npv != -1 {
-					fail("C19:reload-policy-not-replaced", fmt.Sprintf("reload %d loaded a configuration without lists but policies of version %d are in force", k, npv))
+			want := pr.expect(nd, w.ifaces)
+			if after != want {
+				// every part from one of the two versions = a mix; anything else = not what was loaded
+				sig := "C19:reload-policy-not-replaced"
+				ap, wp, bp := strings.Split(after, ":"), strings.Split(want, ":"), strings.Split(before, ":")
+				mixed := after != before
+				for x := range ap {
+					if ap[x] != wp[x] && ap[x] != bp[x] {
+						mixed = false
+					}
 				}
-				npv = k
-			} else if npv != k {
-				fail("C19:reload-policy-not-replaced", fmt.Sprintf("reload %d loaded without error but the policies in force are version %d", k, npv))
+				if mixed {
+					sig = "C19:reload-part-torn"
+				}
+				fail(sig, fmt.Sprintf("reload %d (%s) loaded without error: decisions on the probe set are %s, the new configuration calls for %s (before the reload: %s; probes %v / %v / %v)", k, e.conf, after, want, before, pr.addrs, pr.hosts, pr.phantoms))
 			}
+			inForce = nd
 			if serr != nil && rm.PhantomSelector != selBefore {
 				fail("C19:failed-reload-changed-state", fmt.Sprintf("reload %d: the subnets file did not load but the phantom selector was replaced", k))
 			}
@@ -581,19 +846,28 @@ func (w *c19World) reloadCase(out *vlib.Out, evs []c19Event) {
 				fail("C19:reload-selector-not-replaced", fmt.Sprintf("reload %d: the subnets file loaded but the selector in force is version %d", k, nsv))
 			}
 		}
-		if strings.HasPrefix(e.conf, "bad-") && reloaded {
+		if (strings.HasPrefix(e.conf, "bad-") || e.conf == "unreadable" || e.conf == "directory") && reloaded {
 			fail("C19:malformed-reload-accepted", fmt.Sprintf("reload %d: a configuration with a malformed entry (%s) was loaded", k, e.conf))
 		}
 		if !reloaded {
-			nsv, npv = sv, pv // nothing changed (checked above on the probe vector and the pointers)
+			nsv = sv // nothing changed (checked above on the decisions and the pointers)
 		} else if serr != nil {
 			nsv = sv
 		}
-		sv, pv = nsv, npv
-		outs = append(outs, fmt.Sprintf("s%dp%dg%d", sv, pv, gv))
-		out.Count("reload:" + e.conf + ":" + cf)
+		sv = nsv
+		outs = append(outs, fmt.Sprintf("s%dg%d:%s", sv, gv, after))
+		out.Count("reload:" + e.conf + ":" + map[bool]string{true: "loaded", false: "refused"}[reloaded])
 	}
-	out.Case("reload|"+strings.Join(mline, ";"), strings.Join(outs, ";"), true)
+	ifs := "-"
+	if len(w.ifaces) > 0 {
+		var t []string
+		for _, n := range w.ifaces {
+			t = append(t, c19NetTok(n, pr.addrs))
+		}
+		ifs = strings.Join(t, "/")
+	}
+	out.Case(fmt.Sprintf("reload2|%d,%d,%d|%s|%s|%s", len(pr.addrs), len(pr.hosts), len(pr.phantoms), ifs, startFields, strings.Join(mline, ";")),
+		strings.Join(outs, ";"), true)
 }
 
 // Database is the interface type of RegistrationManager.GeoIP (for comparing interface values)
@@ -677,8 +951,9 @@ func TestVerifC19(t *testing.T) {
 		for _, i := range ifs {
 			if addrs, err := i.Addrs(); err == nil {
 				for _, a := range addrs {
-					if _, ok := a.(*net.IPNet); ok {
+					if n, ok := a.(*net.IPNet); ok {
 						w.ifaceNets++
+						w.ifaces = append(w.ifaces, n)
 					}
 				}
 			}
@@ -716,8 +991,32 @@ func TestVerifC19(t *testing.T) {
 		"covert_allowlist_subnets = [\"bogus\"]\n", "phantom_blocklist = [\"10.0.0.0/8\", \"10.0.0.0/-1\"]\n",
 		"covert_blocklist_subnets = \"10.0.0.0/8\"\n", "garbage ==", "[[connect_sockets]]\naddress = \"tcp://x:1\"\n",
 		"covert_blocklist_public_addrs = true\n", "covert_blocklist_public_addrs = true\ncovert_allowlist_subnets = [\"198.51.100.0/24\"]\n",
+		"covert_blocklist_public_addrs = true\ncovert_blocklist_subnets = [\"10.0.0.0/8\"]\nphantom_blocklist = [\"192.168.0.0/16\"]\n",
+		// an address without a mask is not a subnet
+		"covert_blocklist_subnets = [\"10.0.0.1\"]\n", "covert_allowlist_subnets = [\"198.51.100.7\"]\n", "phantom_blocklist = [\"2001:db8::1\"]\n",
+		// host bits set, IPv4-mapped form, zero-length prefix
+		"covert_blocklist_subnets = [\"10.1.2.3/8\", \"2001:db8::1/32\"]\n", "covert_blocklist_subnets = [\"::ffff:10.0.0.0/104\"]\nphantom_blocklist = [\"::ffff:192.168.0.0/112\"]\n",
+		"covert_allowlist_subnets = [\"0.0.0.0/0\"]\n", "covert_blocklist_subnets = [\"0.0.0.0/0\", \"::/0\"]\n",
+		// white space the code trims: tab, newline, no-break space, ideographic space; and white space inside
+		"covert_blocklist_subnets = [\"\\t10.0.0.0/8\\n\", \"\u00a0172.16.0.0/12\u00a0\", \"\u3000192.168.0.0/16\"]\n", "covert_blocklist_subnets = [\"10.0.0.0 /8\"]\n",
+		// the decoder's own refusals: a key twice, an array of mixed types, a table where a list is expected
+		"covert_blocklist_subnets = [\"10.0.0.0/8\"]\ncovert_blocklist_subnets = [\"172.16.0.0/12\"]\n", "covert_blocklist_subnets = [\"10.0.0.0/8\", 5]\n",
+		"[covert_blocklist_subnets]\nx = 1\n", "covert_blocklist_domains = [[\"a\"]]\n", "phantom_blocklist = [\"10.0.0.0/8\", true]\n",
+		// patterns: empty (matches everything), anchored, a character class, one that only RE2 refuses
+		"covert_blocklist_domains = [\"\"]\n", "covert_blocklist_domains = [\"^localhost$\", \"[0-9]+\\\\.example\"]\n", "covert_blocklist_domains = [\"(?=x)\"]\n", "covert_blocklist_domains = [\"a{2000}\"]\n",
 	} {
 		one(c)
+	}
+	// very long lists, the last entry malformed or not
+	for _, bad := range []bool{false, true} {
+		var l []string
+		for i := 0; i < 3000; i++ {
+			l = append(l, fmt.Sprintf("\"10.%d.%d.0/24\"", i/256, i%256))
+		}
+		if bad {
+			l = append(l, "\"10.300.0.0/24\"")
+		}
+		one("covert_blocklist_subnets = [" + strings.Join(l, ", ") + "]\nphantom_blocklist = [" + strings.Join(l[:1500], ", ") + "]\n")
 	}
 
 	// ---- exhaustive over the liveness keys and over the policy keys, the other keys unset / random
@@ -762,7 +1061,8 @@ func TestVerifC19(t *testing.T) {
 		one(c19Render(all, p))
 	}
 
-	// ---- reload sequences: every single event, every pair (quick) / a sample of triples, random long ones
+	// ---- reload sequences: every single event, pairs (sampled quick / all thorough), fixed triples around the
+	// allowlist, random long ones
 	var singles []c19Event
 	for _, c := range c19ConfKinds {
 		for _, s := range []string{"valid", "bad-toml", "unreadable", "bad-generation"} {
@@ -774,9 +1074,26 @@ func TestVerifC19(t *testing.T) {
 	}
 	for _, a := range singles {
 		for _, b := range singles {
-			if vlib.Tier() == "thorough" || r.Chance(1, 6) {
+			if vlib.Tier() == "thorough" || r.Chance(1, 12) {
 				w.reloadCase(out, []c19Event{a, b})
 			}
+		}
+	}
+	// allowlist set / dropped / set again, allowlist as the only change, the public-address option toggled,
+	// a failed load in between
+	for _, t := range [][]string{
+		{"valid-allow", "valid", "valid-allow"}, {"valid-allow", "toggle-allow", "toggle-allow"}, {"toggle-allow", "toggle-allow", "toggle-allow"},
+		{"valid", "toggle-allow", "valid-allow2"}, {"valid-allow", "valid-allow2", "valid"}, {"valid-allow2", "bad-allow", "toggle-allow"},
+		{"valid-public", "valid-allow", "valid-public"}, {"valid-public", "toggle-allow", "toggle-allow"}, {"valid-public", "valid", "valid-public"},
+		{"valid-allow", "empty", "valid-allow"}, {"valid-allow", "zmq-only", "toggle-allow"}, {"valid-allow", "bad-toml", "valid"},
+		{"toggle-allow", "unreadable", "toggle-allow"}, {"valid-geogarbage", "valid-allow", "valid-geobad"}, {"bad-bare-ip", "valid-allow", "bad-bare-ip"},
+	} {
+		for _, sub := range []string{"valid", "bad-toml"} {
+			var evs []c19Event
+			for _, c := range t {
+				evs = append(evs, c19Event{c, sub})
+			}
+			w.reloadCase(out, evs)
 		}
 	}
 	m := vlib.Budget(300, 6000)
@@ -785,7 +1102,7 @@ func TestVerifC19(t *testing.T) {
 		for j, l := 0, r.Range(3, 12); j < l; j++ {
 			e := c19Event{c19ConfKinds[r.Intn(len(c19ConfKinds))], c19SubnetKinds[r.Intn(len(c19SubnetKinds))]}
 			if r.Chance(1, 2) {
-				e.conf = c19ConfKinds[r.Intn(3)] // mostly valid
+				e.conf = c19ConfKinds[r.Intn(c19ValidKinds)] // mostly configurations that load
 			}
 			evs = append(evs, e)
 		}
